@@ -37,10 +37,12 @@ def pick_markup(rng, r, exp_list, name, getter_value, base, unsafe_ok=False):
     m = '<%s %s="%s"%s' % (t, a, attr_esc(r), "/>" if void else ">x</%s>" % t)
     exp_list.append(("%s %s@%s" % (name, t, a), (lambda t, a: lambda d: embedded(getter_value(d), t, a))(t, a), rfc_resolve(base, r), "embedded"))
     return m
-XB = [None, None, None, "http://e1.example/a/b", "sub/", "sub/leaf", "/root/", "/root/x", "?q=1", "", "javascript:x//", "https://s.example/", "../up/", "data:text/plain,x", "//net.example/p/"]
+XB = [None, None, None, "http://e1.example/a/b", "sub/", "sub/leaf", "/root/", "/root/x", "?q=1", "", "javascript:x//", "https://s.example/", "../up/", "data:text/plain,x", "//net.example/p/", "/mirror/?u=http://orig.example/dir/", "m/?u=https://orig.example/"]
 XL = [None, None, "en", "fr-CA", "", "de"]
 REFS = ["g", "./g", "g/", "/g", "//h.example/g", "?y", "g?y", "#s", "g#s", ";x", "g;x", "g;x?y#s", ".", "./", "..", "../", "../g",
-        "../..", "../../", "../../g", "http://abs.example/x", "g/h/i", "../../../g", "a/../b", "g?y/./x"]
+        "../..", "../../", "../../g", "http://abs.example/x", "g/h/i", "../../../g", "a/../b", "g?y/./x",
+        # relative references that EMBED an absolute URL in their query / fragment (redirector and archive links)
+        "?u=http://o.example/x", "g?to=https://o.example/", "#r=http://o.example/", "/abs?next=http://o.example/a/b", "r?to=ftp://f.example/"]
 
 
 def attr_esc(s):
